@@ -302,11 +302,11 @@ func genC16(g *G) {
 		}
 	}
 	// every single byte, and the empty string (every shard: cheap)
-	add(nil)
+	single := func(b []byte) { g.Case([]string{"reset", "split " + c15hex(b)}) }
+	single(nil)
 	for c := 0; c < 256; c++ {
-		add([]byte{byte(c)})
+		single([]byte{byte(c)})
 	}
-	flush()
 	// exhaustive over one representative per class + a second default byte
 	maxLen := g.Scale(6, 8)
 	idx := 0
@@ -326,9 +326,8 @@ func genC16(g *G) {
 	flush()
 	// tab as the second blank, in every position of short strings
 	for n := 1; n <= 4; n++ {
-		c16enum([]byte{'a', '\t', '\\', '"'}, n, add)
+		c16enum([]byte{'a', '\t', '\\', '"'}, n, single)
 	}
-	flush()
 	// random longer inputs
 	for i := 0; i < g.Scale(400, 6000); i++ {
 		add(c16random(g, 8+g.Intn(g.Scale(120, 400))))
